@@ -1,6 +1,8 @@
 import Qryn.Proofs.BatcherRect
 import Qryn.Proofs.PromDecoder
+import Qryn.Proofs.BatcherLocks
 import Qryn.Gen.Inserts
+import Qryn.Gen.BatcherLocks
 /-! # C02 — every INSERT block is rectangular and made only of whole submitted rows
 
 Property theorems only. Model: `Qryn.Ingest.Batcher` with concrete columns. Each `ProcessRequest` closure of
@@ -118,6 +120,106 @@ theorem parser_rect_prom (limit : Nat) (series : List (List Cell)) (id : ReqId) 
     1000: 1 series × 1001 samples → 1001 timestamps, 1002 types; fixed in /repo, see KNOWN_FINDINGS) -/
 theorem parser_rect_prom_pinned_counterexample :
     ¬ ∀ c ∈ PromDecoder.decode 2 false [[1, 2, 3]] 0, c.types = c.rows.length := by decide
+
+
+/-! ## "code under one hold of `svc.mtx` is one atomic step": tied to the source, and what it is worth
+
+`Gen.BatcherLocks` is regenerated from `writer/service/genericInsertService.go`: every method of `*InsertServiceV2` as
+its sequence of lock holds / free stretches with the fields touched in each, and `swapBuffers`, `Request`,
+`fetchLoopIteration` statement by statement. Model of the finer grain: `Qryn.Ingest.BatcherLocks` (`MSvc`, `mrun`):
+`swapBuffers` runs hold by hold, requests and triggers of other goroutines come in between two holds. -/
+section locks
+open Qryn.Ingest.BatcherLocks
+
+/-- **locks_atomic** (decided on the regenerated facts). No method touches `columns`/`results`/`size` outside a
+    hold; `swapBuffers` and `Request` each touch them in exactly ONE hold that writes all three; `swapBuffers` renews
+    the insert context, returns early on an empty batch and takes-and-replaces columns, size and results inside that
+    one hold, its other holds (none today) touching nothing the model knows; `Request` is, statement by statement,
+    what `stepRequest` mirrors: the stopped check outside the lock, then one hold with `processRequest` into
+    `svc.columns`, the immediate completion, the size booking, the size trigger and the promise booking. -/
+theorem locks_atomic :
+    atomicSwap Gen.BatcherLocks.methods Gen.BatcherLocks.swapProgram Gen.BatcherLocks.requestProgram = true := by
+  decide
+
+/-- `fetchLoopIteration` has, in this order, the effects `stepConnect`/`stepSwap`/`stepDoResult` mirror: connect when
+    there is no client (return on failure), swap, return when there is no portion, `OnBeforeInsert`, copy of the
+    waiting promises, input built from the portion's columns, `Do`, release of exactly these promises with `Do`'s
+    error, client dropped on error -/
+theorem iteration_as_modelled : Gen.BatcherLocks.iterationProgram = iterationAsModelled := by decide
+
+theorem swap_program_atomic : atomicProg Gen.BatcherLocks.swapProgram = true := by decide
+
+/-- **swap_hold_by_hold_refines.** For EVERY `swapBuffers` program whose swap sits in one hold (whatever else is
+    split off into further holds before or after it), every run of the hold-by-hold machine — any number of
+    requests and flush triggers interleaved anywhere between the holds of any number of flushes, with any connect
+    and `Do` outcomes, pings and stops — produces exactly the events of the run `absRun` of the atomic machine
+    (same requests in the same order, one `swap` per completed swap). So every trace property of `Ingest.Batcher`
+    holds of the finer-grained machine. -/
+theorem swap_hold_by_hold_refines (prog : List (List Move)) (h : atomicProg prog = true) (p : Plan) (maxQueue : Nat)
+    (ops : List MOp) :
+    (mrun prog (MSvc.init p maxQueue) ops).2 = (run (Svc.init p maxQueue) (absRun prog (MSvc.init p maxQueue) ops)).2 :=
+  (mrun_refines (shape_of_atomic prog h) ops _ _ (Rel.idle _)).1
+
+/-- **block_is_concat, hold by hold**: for the regenerated `swapBuffers` program and the regenerated plans, every
+    block of every hold-by-hold run is the column-wise concatenation, in promise order, of what the requests it
+    resolves submitted. -/
+theorem block_is_concat_locks (k : Kind) (maxQueue : Nat) (R : ReqId → Req) (ops : List MOp)
+    (hG : ∀ op ∈ ops, MGoodOp (Gen.Inserts.planOf k) R op) :
+    ∀ b w o, Event.insert b w o ∈ (mrun Gen.BatcherLocks.swapProgram (MSvc.init (Gen.Inserts.planOf k) maxQueue) ops).2 →
+      BlockIsConcat (Gen.Inserts.planOf k) R b w := by
+  intro b w o h
+  rw [swap_hold_by_hold_refines _ swap_program_atomic] at h
+  exact ((run_concat (plans_ok k) _ _ (cinit maxQueue) (absRun_good ops _ hG)).2 b w o h).1
+
+/-- the program of seeded change C02-1: results and size are taken in a first hold, the columns in a second one -/
+def splitProgram : List (List Move) := [[.renew, .checkEmpty, .other, .takeSize, .takeResults], [.takeCols]]
+
+def splitReq (id : ReqId) (v : Nat) : Req :=
+  { id := id, ptype := .timeSamplesData, size := 30,
+    arrays := [("MTimestampNS", [v]), ("MFingerprint", [v + 1]), ("MType", [v + 2]), ("MValue", [v + 3]), ("MMessage", [v + 4])] }
+
+/-- request 1 is queued, the flusher takes the first hold, request 2 arrives, the flusher takes the second hold; the
+    INSERT fails; next flush, the INSERT succeeds -/
+def splitOps : List MOp :=
+  [.request (splitReq 1 10), .trigger .timer, .connect true, .hold, .request (splitReq 2 20), .hold, .doResult .err,
+   .trigger .timer, .connect true, .hold, .hold, .doResult .ok]
+
+/-- **two_hold_split_counterexample** (kernel-checked). With `swapBuffers` split into two holds the rows of request
+    2 travel in the block whose outcome goes to request 1 only, and request 2 is resolved by the next — empty —
+    block: the first block is not the concatenation of what it resolves, and request 2 is acknowledged although
+    the only INSERT that carried its rows failed. The split program is rejected by `atomicProg`. -/
+theorem two_hold_split_counterexample :
+    atomicProg splitProgram = false ∧
+    (mrun splitProgram (MSvc.init samplesPlan 0) splitOps).2 =
+      [.insert [("type", [12, 22]), ("fingerprint", [11, 21]), ("timestamp_ns", [10, 20]), ("string", [14, 24]), ("value", [13, 23])] [1] .err,
+       .resolved 1 .err,
+       .insert [("type", []), ("fingerprint", []), ("timestamp_ns", []), ("string", []), ("value", [])] [2] .ok,
+       .resolved 2 .ok] ∧
+    ¬ BlockIsConcat samplesPlan (fun id => splitReq id (10 * id))
+        [("type", [12, 22]), ("fingerprint", [11, 21]), ("timestamp_ns", [10, 20]), ("string", [14, 24]), ("value", [13, 23])] [1] := by
+  refine ⟨by decide, by decide, ?_⟩
+  intro h
+  have := h.2 "type" (by decide)
+  revert this
+  decide
+
+/-- the same run on the pinned program: request 2 waits for the swap, rides in the second block -/
+example :
+    (mrun Gen.BatcherLocks.swapProgram (MSvc.init samplesPlan 0)
+        [.request (splitReq 1 10), .trigger .timer, .connect true, .hold, .request (splitReq 2 20), .hold, .doResult .err,
+         .trigger .timer, .connect true, .hold, .hold, .doResult .ok]).2 =
+      [.insert [("type", [12]), ("fingerprint", [11]), ("timestamp_ns", [10]), ("string", [14]), ("value", [13])] [1] .err,
+       .resolved 1 .err,
+       .insert [("type", [22]), ("fingerprint", [21]), ("timestamp_ns", [20]), ("string", [24]), ("value", [23])] [2] .ok,
+       .resolved 2 .ok] := by
+  decide
+
+/-- a three-hold program that keeps the swap in one hold is accepted (non-vacuity of `swap_hold_by_hold_refines`
+    beyond the one-hold case) -/
+example : atomicProg [[.other], [.renew, .checkEmpty, .takeResults, .other, .takeCols, .takeSize], [.other, .other]] = true := by
+  decide
+
+end locks
 
 /-! ## the model mirrors Go column by column: non-rectangular input gives non-rectangular columns -/
 
